@@ -51,7 +51,32 @@ func DriveOracle(out io.Writer, seed int64, runs, length int) (map[string]int, e
 				e = M{"type": "SetClient", "signer": pick(r, []string{"e1", "e1", "x"}), "client": pick(r, []string{"cl1", "", "other"})}
 			} else if len(host) == 0 || r.Intn(6) == 0 {
 				set := M{}
+				if len(host) > 1 && r.Intn(4) == 0 { // validators leave the L1 set, everybody else's power is unchanged
+					drop := r.Intn(len(host))
+					i := 0
+					var names []string
+					for v := range host {
+						names = append(names, v)
+					}
+					for a := range names {
+						for b := a + 1; b < len(names); b++ {
+							if names[b] < names[a] {
+								names[a], names[b] = names[b], names[a]
+							}
+						}
+					}
+					for _, v := range names {
+						if i != drop {
+							set[v] = host[v]
+						}
+						i++
+					}
+					e = M{"type": "UpdateHostSet", "client": "cl1", "height": hostH + 1, "set": set}
+				}
 				n := 1 + r.Intn(7)
+				if e != nil {
+					n = 0
+				}
 				for _, j := range r.Perm(7)[:n] {
 					p := int64(1 + r.Intn(6))
 					if r.Intn(15) == 0 {
@@ -59,9 +84,11 @@ func DriveOracle(out io.Writer, seed int64, runs, length int) (map[string]int, e
 					}
 					set[vals[j]] = p
 				}
-				e = M{"type": "UpdateHostSet", "client": pick(r, []string{"cl1", "cl1", "cl1", "cl1", "other", ""}), "height": hostH + int64(pick(r, []int{-1, 0, 1, 1, 2, 5})), "set": set}
-				if absx.Int(e["height"]) < 1 {
-					e["height"] = int64(1)
+				if e == nil {
+					e = M{"type": "UpdateHostSet", "client": pick(r, []string{"cl1", "cl1", "cl1", "cl1", "other", ""}), "height": hostH + int64(pick(r, []int{-1, 0, 1, 1, 2, 5})), "set": set}
+					if absx.Int(e["height"]) < 1 {
+						e["height"] = int64(1)
+					}
 				}
 			} else {
 				var names []string
